@@ -43,16 +43,22 @@ func skipType(t reflect.Type) bool {
 
 // identity numbers skipped objects (engines, environments) in the order they are first seen in this
 // process, so that a template re-bound to another engine hashes differently
-var identities = map[unsafe.Pointer]int{}
+// Keys are plain addresses (uintptr), NOT pointers: the table must not keep the engines of
+// finished histories alive. ResetIdentities is called when a new world is built; inside one world
+// all engines are alive at the same time, so addresses are unambiguous.
+var identities = map[uintptr]int{}
 
 func identity(p unsafe.Pointer) int {
-	id, ok := identities[p]
+	id, ok := identities[uintptr(p)]
 	if !ok {
 		id = len(identities) + 1
-		identities[p] = id
+		identities[uintptr(p)] = id
 	}
 	return id
 }
+
+// ResetIdentities forgets the numbering (call between independent worlds).
+func ResetIdentities() { identities = map[uintptr]int{} }
 
 type hasher struct {
 	h    interface{ Write([]byte) (int, error) }
